@@ -5,6 +5,7 @@ import (
 	"go/constant"
 	"go/types"
 	"sort"
+	"strconv"
 	"strings"
 	"unicode"
 
@@ -39,7 +40,9 @@ func bindErrNil(fn *ssa.Function, callee string, ord int) func(in *Interp, tuple
 // R14-sml — the parser diagnoses exactly the literals outside the item's range.
 func ruleDomainSML(p *Prog, r *Report) {
 	const rule = "R14-sml"
-	if fn := p.MustFunc(r, "sml", "(*parser).parseBinary"); fn != nil {
+	if fn := p.MustFunc(r, "sml", "(*parser).parseBinary"); fn != nil && len(callSites(fn, "strconv.ParseInt")) == 0 {
+		literalByEvaluation(p, r, rule, rule+":sml.parseBinary:literal", fn, "NewBinaryNode", 0, 255)
+	} else if fn != nil {
 		CheckDomain(p, r, DomainSpec{Rule: rule, Key: rule + ":sml.parseBinary:literal", Fn: fn, Sink: isParserErrorf,
 			Subjs:   []Subj{{Name: "binary literal", Kind: SCall, Callee: "strconv.ParseInt", Ord: 0, Index: 0, Type: types.Typ[types.Int64]}},
 			PreBind: bindErrNil(fn, "strconv.ParseInt", 0),
@@ -47,11 +50,15 @@ func ruleDomainSML(p *Prog, r *Report) {
 			Accept: func(v []Val) bool { return inRange(v[0], 0, 255) }})
 	}
 	if fn := p.MustFunc(r, "sml", "(*parser).parseASCII"); fn != nil {
-		CheckDomain(p, r, DomainSpec{Rule: rule, Key: rule + ":sml.parseASCII:code", Fn: fn, Sink: isParserErrorf,
-			Subjs:   []Subj{{Name: "ASCII character code", Kind: SCall, Callee: "strconv.ParseUint", Ord: 0, Index: 0, Type: types.Typ[types.Uint64]}},
-			PreBind: bindErrNil(fn, "strconv.ParseUint", 0),
-			Consts:  []int64{0, 127, 128, 255, 256, 321, 65535, 65536}, What: "code <= 127",
-			Accept: func(v []Val) bool { return inRange(v[0], 0, 127) }})
+		if len(callSites(fn, "strconv.ParseUint")) == 0 {
+			literalByEvaluation(p, r, rule, rule+":sml.parseASCII:code", fn, "NewASCIINode", 0, 127)
+		} else {
+			CheckDomain(p, r, DomainSpec{Rule: rule, Key: rule + ":sml.parseASCII:code", Fn: fn, Sink: isParserErrorf,
+				Subjs:   []Subj{{Name: "ASCII character code", Kind: SCall, Callee: "strconv.ParseUint", Ord: 0, Index: 0, Type: types.Typ[types.Uint64]}},
+				PreBind: bindErrNil(fn, "strconv.ParseUint", 0),
+				Consts:  []int64{0, 127, 128, 255, 256, 321, 65535, 65536}, What: "code <= 127",
+				Accept: func(v []Val) bool { return inRange(v[0], 0, 127) }})
+		}
 		if len(stringRangeSites(fn)) == 0 {
 			quotedRuneByEvaluation(p, r, rule, fn)
 		} else {
@@ -481,5 +488,91 @@ func quotedRuneByEvaluation(p *Prog, r *Report, rule string, fn *ssa.Function) {
 		r.unk(rule, key, pos, strings.Join(firstN(undec, 4), "; "))
 	default:
 		r.ok(rule, key, pos, fmt.Sprintf("evaluated on a quoted string of one rune for %d representatives around 127/128 and the UTF-8 length boundaries: exactly the runes above 127 are reported, every other rune reaches the node unchanged", len(reps)))
+	}
+}
+
+// literalByEvaluation decides a number-literal obligation when the item parser
+// does not call strconv itself (the conversion may sit in a helper): the token
+// list is bound to one number token whose text denotes a representative of
+// each cell around the bounds (in decimal, hexadecimal and with a sign), and
+// the parser must report exactly the values outside [lo, hi] and hand the
+// others to the factory unchanged.
+func literalByEvaluation(p *Prog, r *Report, rule, key string, fn *ssa.Function, factory string, lo, hi int64) {
+	pos := p.Pos(fn.Pos())
+	ttN, ok := smlConst(p, "tokenTypeNumber")
+	toksCalls := callSites(fn, "(*sml.parser).getDataItemValueTokens")
+	if !ok || len(toksCalls) != 1 {
+		r.unk(rule, key, pos, "neither a direct strconv call nor a single call of getDataItemValueTokens found in "+FnName(fn))
+		return
+	}
+	type lit struct {
+		text string
+		val  int64
+	}
+	var lits []lit
+	for _, v := range []int64{lo - 65536, lo - 256, lo - 2, lo - 1, lo, lo + 1, (lo + hi) / 2, hi - 1, hi, hi + 1, hi + 2, 255, 256, 257, 321, hi + 256, 65535, 65536, 65536 + hi, 1 << 31, 1 << 32, (1 << 32) + hi} {
+		lits = append(lits, lit{strconv.FormatInt(v, 10), v})
+		if v >= 0 {
+			lits = append(lits, lit{"0x" + strconv.FormatInt(v, 16), v}, lit{"+" + strconv.FormatInt(v, 10), v})
+		}
+	}
+	var bad, undec []string
+	for _, l := range lits {
+		in := NewInterp(p)
+		in.PathBind["toks[0].typ"] = int64Val(ttN)
+		in.PathBind["toks[0].val"] = strVal(l.text)
+		in.Bind = func(v ssa.Value, fr *frame) (Val, bool) {
+			if v == ssa.Value(toksCalls[0]) {
+				return Val{K: KSlice, S: "toks", Len: 1}, true
+			}
+			return Val{}, false
+		}
+		refused := false
+		var built *Val
+		in.OnCall = func(call *ssa.Call, callee *ssa.Function, a []Val, fr *frame) {
+			if isParserErrorf(callee) {
+				refused = true
+			}
+			if callee.Name() == factory && fr.fn == fn && len(a) >= 1 {
+				arg := a[len(a)-1]
+				if arg.K == KSlice && arg.Len == 1 {
+					e := in.Elem(arg, 0, types.NewInterfaceType(nil, nil))
+					if e.K == KIface && e.Inner != nil {
+						e = *e.Inner
+					}
+					built = &e
+				} else {
+					built = &arg
+				}
+			}
+		}
+		in.Run(fn, defaultArgs(fn), nil)
+		if len(in.Stuck) > 0 || in.OpaqueSubject {
+			undec = append(undec, l.text+": evaluation stuck")
+			continue
+		}
+		inside := l.val >= lo && l.val <= hi
+		switch {
+		case !inside && !refused:
+			bad = append(bad, fmt.Sprintf("the literal %s (outside [%d, %d]) is accepted without a diagnostic", l.text, lo, hi))
+		case inside && refused:
+			bad = append(bad, fmt.Sprintf("the literal %s (inside [%d, %d]) is reported as an error", l.text, lo, hi))
+		case inside && built == nil:
+			undec = append(undec, l.text+": what reaches "+factory+" could not be determined")
+		case inside && built.K == KStr && built.S != string(rune(l.val)):
+			bad = append(bad, fmt.Sprintf("the literal %s reaches %s as %q", l.text, factory, built.S))
+		case inside && built.K == KInt && built.I.Int64() != l.val:
+			bad = append(bad, fmt.Sprintf("the literal %s reaches %s as %s", l.text, factory, built))
+		case inside && built.K != KStr && built.K != KInt:
+			undec = append(undec, l.text+": what reaches "+factory+" could not be determined ("+built.String()+")")
+		}
+	}
+	switch {
+	case len(bad) > 0:
+		r.bad(rule, key, pos, strings.Join(firstN(bad, 4), "; "))
+	case len(undec) > 0:
+		r.unk(rule, key, pos, strings.Join(firstN(undec, 4), "; "))
+	default:
+		r.ok(rule, key, pos, fmt.Sprintf("evaluated on %d number tokens around the bounds and the byte/word boundaries, in decimal, hexadecimal and signed notation: exactly the values outside [%d, %d] are reported, the others reach %s unchanged", len(lits), lo, hi, factory))
 	}
 }
